@@ -242,6 +242,20 @@ pub fn run(run: &mut Run) -> Finish {
             l.sample(idx, json!({"long_line_tokens": len, "previous_line_tokens": p, "flagged_indices": flags}));
         }
     });
+    // slice 4: every 6-bit group value in the first and in the second group of a line (all 64
+    // base64 digits of the bit field, in both directions)
+    run.par_slice("one line of 12 tokens (after an empty line), every subset of tokens flagged: all 64 digit values in the first and second 6-bit group, 3 constructions", 12, 4096 * 3, |idx, l| {
+        let k = idx & ((1 << 40) - 1);
+        let mask = k / 3;
+        let m = layout_map(&[1], &[12], &|t| mask >> t & 1 == 1, 0, None);
+        let (v, ran) = check_map(&m, (k % 3) as usize, mask % 64 == 21);
+        for x in v {
+            l.violation(idx, x);
+        }
+        if ran {
+            l.case(mask != 0, h64(&("groups", mask & 63, (mask >> 6).min(1))));
+        }
+    });
     // slice 3: exact consecutive duplicates next to range tokens (the encoder drops the
     // duplicate; the flags of the remaining tokens must stay on the right tokens)
     let dmax = tier.pick(4, 5);
@@ -266,7 +280,7 @@ pub fn run(run: &mut Run) -> Finish {
     });
     Finish {
         level: "exploration",
-        rule: "E1: every assignment of the range flag to the tokens of every layout of the stated space (1-4 generated lines incl. leading empty lines and gaps, 0..4/5 tokens per line; long lines of 17/18/33/40/64/65/129 tokens with every single flag position and boundary pairs at 5/6/7, 15/16/17), built three ways (raw constructor, builder, decoding a document whose rangeMappings was written by an independent bit-field writer). Oracles: the written rangeMappings read independently marks exactly the model's tokens by in-line segment index; after to_writer+decode is_range of every token equals the model's; every lookup on a full grid (incl. later lines, u32::MAX columns) reports original column + distance on the range token's own line and the token's own position otherwise, never panicking. Distinct by construction; non-trivial = at least one range token; class = layout x flag count x position class of the first range token.".into(),
+        rule: "E1: every assignment of the range flag to the tokens of every layout of the stated space (1-4 generated lines incl. leading empty lines and gaps, 0..4/5 tokens per line; long lines of 17/18/33/40/64/65/129 tokens with every single flag position and boundary pairs at 5/6/7, 15/16/17; a 12-token line with every subset flagged, i.e. every base64 digit in two groups), built three ways (raw constructor, builder, decoding a document whose rangeMappings was written by an independent bit-field writer). Oracles: the written rangeMappings read independently marks exactly the model's tokens by in-line segment index; after to_writer+decode is_range of every token equals the model's; every lookup on a full grid (incl. later lines, u32::MAX columns) reports original column + distance on the range token's own line and the token's own position otherwise, never panicking. Distinct by construction; non-trivial = at least one range token; class = layout x flag count x position class of the first range token.".into(),
         assumptions: vec![
             "original column + distance beyond u32::MAX: crash-freedom only".into(),
             "maps with exact consecutive duplicate tokens are a separate slice whose violations carry the suffix /with-duplicate-token (DESIGN 3.3)".into(),
